@@ -41,6 +41,16 @@ CHECKS = {
             "Programs: all 282 templ texts of the repository plus every combination of 25 expression slots (package clause, signature incl. receiver, if/else-if, for, switch/case, string, attribute, boolean/spread/conditional/class/style/href/on* attributes, call arguments, block calls, templ element expression, raw Go, script {{ }}, css value, script template name/parameters, top-level Go after and header before the package clause) x 6 expression shapes (ASCII, multi-line call, multi-byte inside, raw string spanning lines, padded, braces) x 3 line contexts (alone, after ASCII text, after multi-byte text); thorough adds ordered slot pairs in one file. For every expression found by a reflection walk of the parse tree and every rune-start byte and end-of-line position: lookup succeeds, the generated (pre-gofmt) text holds the same byte, target line/column agree with the target index, consecutive source positions map to consecutive target positions, the reverse lookup returns the source triple. Symbol ranges of templates, css and script blocks enclose the go/parser-located declarations and reverse-map.",
             "Target text is the generator output before gofmt (what the LSP proxy hands to gopls). Mid-rune offsets and blank expressions are skipped.",
             "4.7", "tgen"),
+    "C08": ("exploration",
+            "program x spelling enumeration through the real formatter; generated Go of original vs formatted compared as go/ast (positions, comments, templ.Error line/col ignored)",
+            "Inputs: every templ text of the repository (both halves of the formatter archives included), every program of the C02 enumeration space in 2-4 concrete spellings (as printed, without indentation, padded expressions with blank lines, CRLF), and hand-enumerated spelling products (12 constant attribute values with character references x both quotes, 8 containers x 16 child kinds x single-/multi-line layout incl. comments, calls, children slot, script/style, control flow, 10 expression shapes incl. trailing comments, raw strings, spreads, multi-line calls). For every input accepted by parse+generate+gofmt: the formatted file is accepted too and the two generated files are structurally identical Go ASTs (every identifier and literal equal; positions, comments and the Line/Col literals of templ.Error ignored). Known layout defects are only attributed when the tree predicate holds AND the programs differ in static whitespace only.",
+            "Formatter = ParseString + TemplateFile.Write (stdin mode of templ fmt); import rewriting not exercised.",
+            "4.8", "tgen"),
+    "C09": ("exploration",
+            "program x spelling enumeration through the real formatter; fmt(fmt(x)) == fmt(x) bytewise",
+            "Same inputs as C08. For every accepted input fmt(fmt(x)) must equal fmt(x) byte for byte (and fmt(x) must parse). The known layout defect is only attributed when the tree predicate holds, the two outputs differ in whitespace only and the third pass is a fixed point.",
+            "Formatter = ParseString + TemplateFile.Write.",
+            "4.8", "tgen"),
     "C11": ("fault_enumeration",
             "exhaustive configuration x fault-point enumeration on the real handler",
             "Every component that writes up to 3/4 chunks of sizes {1,100,5000} and then fails or succeeds (directly or nested under templ.Join) x status {unset,200,201,404} x 3 content types x 5 error-handler shapes (unset, status+body, body only, nothing, own content type) x buffered/streamed, each followed by three further renders over the shared buffer pool. A recording ResponseWriter captures committed status, headers at commit time, number of WriteHeader calls and body. Buffered oracle: success = exact status/content type/full document; failure = no document byte, default 500 message or exactly what the error handler alone writes, handler receives the cause.",
